@@ -83,37 +83,56 @@ def oracle(case, ctx):
     def fh_arg():
         return None if fh_fit else gen.build_fh(steps, "list")
 
-    def expected_forecast(update_params_last, sp=None):
-        """Forecast the model says the forecaster must now produce, or None if not pinned down."""
+    def expected_forecast(update_params_last, sp=None, fwd=None):
+        """Forecast the model says the forecaster must now produce, or None if not pinned down.
+        ``fwd`` maps observations into the representation the (inner) forecaster sees."""
         sp = spec if sp is None else sp
+        fwd = (lambda s: s) if fwd is None else fwd
         c = model["cutoff"]
+        if pools.is_stateless_pipeline(sp):
+            # element-wise parameter-free transformers: the final forecaster must behave as if
+            # it had observed the transformed union; its forecast is mapped back in reverse order
+            ts = [pools.build_transformer(t) for t in sp["transformers"]]
+
+            def inner_fwd(s):
+                s = fwd(s)
+                for t in ts:
+                    s = t.fit_transform(s.copy())
+                return s
+
+            p = expected_forecast(update_params_last, sp["forecaster"], inner_fwd)
+            if p is None:
+                return None
+            for t in reversed(ts):
+                p = t.inverse_transform(p)
+            return p
         if pools.refits_on_update(sp) and model["params_current"]:
             g = pools.build_forecaster(sp)
-            g.fit(mk(sorted(model["obs"]), [model["obs"][k] for k in sorted(model["obs"])], ik),
-                  None, gen.build_fh(steps, "list"))
+            u = fwd(series_of(model))
+            g.fit(mk(list(u.index), u.to_numpy(), ik), None, gen.build_fh(steps, "list"))
             return g.predict()
         if not model["params_current"]:
             if sp["kind"] in PARAMETRIC:
                 g = pools.build_forecaster(sp)
-                g.fit(model["fit_data"].copy())
+                g.fit(fwd(model["fit_data"].copy()))
                 return g.predict(ForecastingHorizon([c + h for h in steps], is_relative=False))
             if sp["kind"] == "naive":
                 g = pools.build_forecaster(sp)
                 # non-parametric: the window length resolved at the last fit, the newest window
-                u = series_of(model)
+                u = fwd(series_of(model))
                 if sp.get("wl") is None and sp["strategy"] in ("mean", "drift"):
                     u = u.iloc[-len(model["fit_data"]):]
                 g.fit(mk(list(u.index), u.to_numpy(), ik), None, gen.build_fh(steps, "list"))
                 return g.predict()
             if sp["kind"] == "ensemble":
-                parts = [expected_forecast(update_params_last, m) for m in sp["members"]]
+                parts = [expected_forecast(update_params_last, m, fwd) for m in sp["members"]]
                 if any(p is None for p in parts):
                     return None
                 M = np.column_stack([p.to_numpy(dtype=float) for p in parts])
                 agg = {"mean": np.mean, "median": np.median, "min": np.min, "max": np.max}[sp.get("aggfunc", "mean")]
                 return pd.Series(agg(M, axis=1), index=parts[0].index)
             if sp["kind"] == "multiplex":
-                return expected_forecast(update_params_last, sp["members"][sp["selected"] % len(sp["members"])])
+                return expected_forecast(update_params_last, sp["members"][sp["selected"] % len(sp["members"])], fwd)
         return None
 
     model["params_current"] = True
@@ -335,7 +354,11 @@ def specs():
                     st.sampled_from(["mean", "median"]))
     mux = st.builds(lambda ms, s: {"kind": "multiplex", "members": ms, "selected": s},
                     st.lists(st.one_of(pools.naive_specs(), pools.trend_specs()), min_size=1, max_size=3), st.integers(0, 3))
-    pipe = st.builds(pools._pipeline, pools.transformer_chains(2, allow_boxcox=False), st.one_of(pools.naive_specs(), pools.trend_specs()))
+    pipe = st.one_of(
+        st.builds(pools._pipeline, pools.transformer_chains(2, allow_boxcox=False), st.one_of(pools.naive_specs(), pools.trend_specs())),
+        # value-checked pipelines: chains of 1-3 element-wise transformers
+        st.builds(lambda ts, f: {"kind": "pipeline", "transformers": ts, "forecaster": f},
+                  pools.stateless_chains(1, 3), st.one_of(pools.naive_specs(), pools.trend_specs())))
     stack = st.builds(lambda ms: {"kind": "stack", "members": ms, "reg": "linear"},
                       st.lists(st.one_of(pools.naive_specs(), pools.trend_specs()), min_size=1, max_size=2))
     return st.one_of(plain, plain, ens, mux, pipe, stack)
